@@ -1,4 +1,5 @@
 import ArrModel.C20
+import ArrModel.C20Int
 import Driver.Proto
 /-!
 # Driver.C20 — runs the generic operator model on the free scalar algebra `Sym` (index protocol)
@@ -28,6 +29,19 @@ Compact operand spelling for huge arrays (both ends expand it with the same inte
 
     seq <case> / <case> / …            several cases executed one after the other on one thread (hidden state, A–B–A,
                                        the same arguments through several element types); answers joined by ` / `
+
+Integer VALUE lines (`ArrModel/C20Int.lean`: the native fixed-width operators are part of the model):
+
+    ival <form> <ty> <op> <A> [<B|s>]  form = arr_arr | assign_arr | arr_scalar | assign_scalar | arr_self | assign_self | neg
+                                              | bit_arr | bit_assign_arr | bit_scalar | bit_assign_scalar | bit_self
+                                              | bit_assign_self | not;  ty = i8 … u64 | isize | usize | bool
+                                       operand values are decimal integers of the type (out of range = malformed);
+                                       the generic model runs on the free terms exactly as for the lines above and
+                                       `evalTerm` turns every term into the value of the native operator
+    ishift <ty> <shl|shr> <x> <k>      the scalar `x << k` / `x >> k` (`Numeric::left_shift` / `right_shift`)
+
+  answer: `<harness build> ;; <plain release>` — the first part is what the executed build (overflow-checks = true)
+  must give (`ok shape:v,v,…` or `panic`), the second what a build without overflow checks gives (wrap-around).
 
 Answers: `ok shape:term,term,…` with terms in prefix notation (`o.x.y` operator, `g.x.y` compound
 assignment, `u.x` unary, `aI`/`bI` operand elements, `s` the scalar), `ok true|false`, `ok lt|eq|gt|none`,
@@ -126,6 +140,115 @@ def handleCmp (_ty rel a b : String) : Option String := do
   | "partial_cmp" => some (showRes showOrd (opPartialCmp Flt.pcmp a b))
   | _ => none
 
+/-! ### integer VALUE lines -/
+
+def intTy? : String → Option IntTy
+  | "i8" => some .i8 | "i16" => some .i16 | "i32" => some .i32 | "i64" => some .i64 | "isize" => some .isize
+  | "u8" => some .u8 | "u16" => some .u16 | "u32" => some .u32 | "u64" => some .u64 | "usize" => some .usize
+  | "bool" => some .bool
+  | _ => none
+
+def binOp? : String → Option BinOp
+  | "add" => some .add | "sub" => some .sub | "mul" => some .mul | "div" => some .div | "rem" => some .rem
+  | "and" => some .and | "or" => some .or | "xor" => some .xor | "shl" => some .shl | "shr" => some .shr
+  | _ => none
+
+/-- a decimal integer of the type; anything outside `MIN..=MAX` is malformed -/
+def parseVal? (ty : IntTy) (s : String) : Option (BitVec ty.w) := do
+  let v ← parseInt? s
+  if ty.inRange v then some (ty.ofVal v) else none
+
+/-- the same for a list, the bounds of the type computed once (`lo ≤ v ≤ hi` is `ty.inRange v`) -/
+def parseVals? (ty : IntTy) (s : String) : Option (List (BitVec ty.w)) :=
+  let lo := ty.minVal; let hi := ty.maxVal
+  parseList? (fun t => do
+    let v ← parseInt? t
+    if lo ≤ v && v ≤ hi then some (ty.ofVal v) else none) s
+
+def showVal (ty : IntTy) (x : BitVec ty.w) : String := toString (ty.val x)
+
+def iArr? (ty : IntTy) (s : String) : Option (IArr ty) :=
+  if s.startsWith "h" then do
+    let (shape, lo, m, o, ovs) ← parseH? s
+    let base ← ((List.range shape.prod).map (fun i => hval lo m o i)).mapM
+      (fun v => if ty.inRange v then some (ty.ofVal v) else none)
+    let elems ← ovs.foldlM (fun (acc : Array (BitVec ty.w)) (pv : Nat × String) => do
+      let v ← parseVal? ty pv.2
+      if pv.1 < acc.size then some (acc.set! pv.1 v) else none) base.toArray
+    some ⟨elems.toList, shape⟩
+  else
+  match s.splitOn ":" with
+  | [sh, el] => do
+    let shape ← parseNatList? sh
+    let elems ← parseVals? ty el
+    some ⟨elems, shape⟩
+  | _ => none
+
+def showIArr (ty : IntTy) (r : IArr ty) : String := showNatList r.shape ++ ":" ++ showList (showVal ty) r.elems
+
+/-- both builds, the executed one first -/
+def both (ty : IntTy) (f : Build → Res (IArr ty)) : String :=
+  showRes (showIArr ty) (f Build.harness) ++ " ;; " ++ showRes (showIArr ty) (f Build.release)
+
+/-- which operators exist for which types (`NumericOps`: i8 i16 i32 i64; `& | ^`: every integer type and bool) -/
+def hasArith (ty : IntTy) : Bool := ty.signed && ty != IntTy.bool
+def isArith : BinOp → Bool
+  | .add | .sub | .mul | .div | .rem => true
+  | _ => false
+def isBit : BinOp → Bool
+  | .and | .or | .xor => true
+  | _ => false
+
+def handleIval (form tyS : String) (rest : List String) : Option String := do
+  let ty ← intTy? tyS
+  match form, rest with
+  | "neg", [a] => do
+    let a ← iArr? ty a
+    if !hasArith ty then none else some (both ty (fun bld => iUnop ty bld .neg a))
+  | "not", [a] => do
+    let a ← iArr? ty a
+    if ty != IntTy.bool then none else some (both ty (fun bld => iUnop ty bld .not a))
+  | _, opS :: as => do
+    let op ← binOp? opS
+    let arith := form == "arr_arr" || form == "assign_arr" || form == "arr_scalar" || form == "assign_scalar"
+      || form == "arr_self" || form == "assign_self"
+    if arith && !(isArith op && hasArith ty) then none
+    else if !arith && !isBit op then none
+    else
+    match form, as with
+    | "arr_arr", [a, b] => do let a ← iArr? ty a; let b ← iArr? ty b; some (both ty (fun bld => iBinop ty bld op a b))
+    | "assign_arr", [a, b] => do let a ← iArr? ty a; let b ← iArr? ty b; some (both ty (fun bld => iAssign ty bld op a b))
+    | "arr_scalar", [a, s] => do let a ← iArr? ty a; let s ← parseVal? ty s; some (both ty (fun bld => iScalar ty bld op a s))
+    | "assign_scalar", [a, s] => do let a ← iArr? ty a; let s ← parseVal? ty s; some (both ty (fun bld => iAssignScalar ty bld op a s))
+    | "arr_self", [a] => do let a ← iArr? ty a; some (both ty (fun bld => iBinop ty bld op a a))
+    | "assign_self", [a] => do let a ← iArr? ty a; some (both ty (fun bld => iAssign ty bld op a a))
+    | "bit_arr", [a, b] => do let a ← iArr? ty a; let b ← iArr? ty b; some (both ty (fun bld => iBitop ty bld op a b))
+    | "bit_assign_arr", [a, b] => do let a ← iArr? ty a; let b ← iArr? ty b; some (both ty (fun bld => iBitAssign ty bld op a b))
+    | "bit_scalar", [a, s] => do let a ← iArr? ty a; let s ← parseVal? ty s; some (both ty (fun bld => iBitScalar ty bld op a s))
+    | "bit_assign_scalar", [a, s] => do let a ← iArr? ty a; let s ← parseVal? ty s; some (both ty (fun bld => iBitAssignScalar ty bld op a s))
+    | "bit_self", [a] => do let a ← iArr? ty a; some (both ty (fun bld => iBitop ty bld op a a))
+    | "bit_assign_self", [a] => do let a ← iArr? ty a; some (both ty (fun bld => iBitAssign ty bld op a a))
+    | _, _ => none
+  | _, _ => none
+
+def showOptVal (ty : IntTy) : Option (BitVec ty.w) → String
+  | some v => "ok " ++ showVal ty v
+  | none => "panic"
+
+def handleShift (tyS opS x k : String) : Option String := do
+  let ty ← intTy? tyS
+  let op ← binOp? opS
+  if op != .shl && op != .shr then none
+  else if ty == IntTy.bool then do
+    let x ← parseVal? ty x; let k ← parseVal? ty k
+    let (xb, kb) := (x != 0, k != 0)
+    let r := if op == .shl then boolShl xb kb else boolShr xb kb
+    let t := if r then "ok 1" else "ok 0"
+    some (t ++ " ;; " ++ t)
+  else do
+    let x ← parseVal? ty x; let k ← parseVal? ty k
+    some (showOptVal ty (scalarBin ty Build.harness op x k) ++ " ;; " ++ showOptVal ty (scalarBin ty Build.release op x k))
+
 def handle1 (op : String) (args : List String) : Option String :=
   match op, args with
   | "arr_arr", [_, _, a, b] => do
@@ -179,6 +302,8 @@ def handle1 (op : String) (args : List String) : Option String :=
     some (showRes showSymArr (bitAssign Sym.op a a))
   | "cmp_self", [ty, rel, a] => handleCmp ty rel a a
   | "cmp", [ty, rel, a, b] => handleCmp ty rel a b
+  | "ival", form :: ty :: rest => handleIval form ty rest
+  | "ishift", [ty, o, x, k] => handleShift ty o x k
   | _, _ => none
 
 /-- split an argument list at the `/` tokens -/
@@ -196,6 +321,7 @@ def handle (op : String) (args : List String) : Option String :=
     some (" / ".intercalate answers)
   -- bookkeeping line of the harness (how many A–B–A re-runs / seq members it executed)
   | "state_report" => some "ok report"
+  | "ival_report" => some "ok report"
   | _ => handle1 op args
 
 end Driver.C20
